@@ -6,9 +6,14 @@ def U(bin, src, variant="asan", quick=1000, thorough=100000, names=(), **kw):
     d.update(kw)
     return d
 
+NOT_APPLICABLE = {}
+
 PROPS = {
     "C01": dict(
         level="exploration",
+        level_text="Generated-input search against an independent long-double Cox-de Boor reference: every generated (table, point, precision) must agree within kappa*eps*magnitude. Exploration is the right level: the property quantifies over an unbounded input space; the generators are built to hit margins, knots, minimum-length and repeated knot vectors and all three allocation paths, and their class distribution is measured.",
+        level_note="Trusts the harness reference (self-tested), the FITS bytes produced by the independent writer, and uninstrumented cfitsio/CHOLMOD. Sampling, not absence.",
+        technique="property-based testing (rapidcheck) with a reference-model oracle",
         units=[U("c01_eval", "c01_eval.cpp", quick=40000, thorough=4000000, names=["eval_vs_ref"])],
         rule="rapidcheck draws a table spec (1..9 dims, per-dimension order 0..5 equal or mixed, knot palette: uniform/geometric/"
              "irregular with scale and offset, repeated and clamped knots, minimum-length vectors; coefficient palette) and a producer "
@@ -24,6 +29,9 @@ PROPS = {
     ),
     "C02": dict(
         level="exploration",
+        level_text="Generated-input search: every derivative request (all bitmask subsets, gradient lanes, derivative-order vectors up to order+1) is compared with the reference derivative recursion; exact-zero and lane-0 identities are checked exactly. Exploration with measured class coverage.",
+        level_note="Trusts the reference derivative recursion and the stated tolerance; requests whose partial products leave the working precision's range are skipped and counted.",
+        technique="property-based testing (rapidcheck) with a reference-model oracle",
         units=[U("c02_deriv", "c02_deriv.cpp", quick=12000, thorough=1500000, names=["deriv_vs_ref"])],
         rule="C01's table space (1..9 dims, orders 0..5, all three producers; half the tables with strictly increasing knots). Per table 3 points "
              "from the point palette; per point every derivative bitmask (all subsets for ndim<=3, 5 masks incl. the full one above), the "
@@ -38,6 +46,9 @@ PROPS = {
     ),
     "C03": dict(
         level="exploration",
+        level_text="Differential testing, bit-exact (memcmp on doubles) between generic member functions, the evaluator object, the call operator and the C interface, over tables drawn so that every row of the evaluator dispatch table is hit, in two builds (with/without PHOTOSPLINE_NO_EVAL_TEMPLATES).",
+        level_note="The routine actually selected is inferred from (ndim, orders) via the documented dispatch, not observed; floating-point contraction is disabled by the project's own -mno-avx flags.",
+        technique="property-based differential testing (rapidcheck)",
         units=[U("c03_paths", "c03_paths.cpp", quick=20000, thorough=3000000, names=["paths"]),
                U("c03_paths_notmpl", "c03_paths.cpp", variant="asan_notmpl", quick=6000, thorough=600000, names=["paths"])],
         rule="tables of 1..9 dims with the order patterns of the property (all 2, all 3, all k, {2,2,2,3,2,2}, {2,2,2,5,2,2}, random mixed), palette "
@@ -50,6 +61,9 @@ PROPS = {
     ),
     "C04": dict(
         level="exploration",
+        level_text="Generated-input search against a linear-scan oracle for acceptance, index range and bracketing, including extreme magnitudes and every knot neighbour; each case runs in a forked child under a watchdog so that non-termination is a failing case.",
+        level_note="Non-termination is observed through a 30 s watchdog that must reproduce; NaN coordinates are excluded by the property.",
+        technique="property-based testing (rapidcheck, fork-isolated) with a reference-model oracle",
         units=[U("c04_lookup", "c04_lookup.cpp", quick=6000, thorough=600000, names=["lookup"])],
         rule="1..3-d tables whose knot vectors come from the palette extended with huge/tiny magnitudes (2^+-1000 scale, denormal spacing, 1e15 offset), "
              "repeats and minimum length; 48 coordinate vectors per table from: every knot, both float neighbours, between knots, beyond both ends, "
